@@ -214,6 +214,62 @@ def window_check(case):
     return Res(list(seen.items()), o=(w, ns < w, (ns - w) % (w - 576) == 0), tr=1)
 
 
+# ------------------------------------------------------------------ value patterns
+PATTERNS = ("all-zero", "zero-start", "zero-middle", "zero-end", "rail-low", "rail-high", "constant", "zero-data-live-sync", "live-data-zero-sync")
+
+
+def pattern_cases(tier, seed):
+    return [(pat, pc, ns) for pat in PATTERNS for pc in (True, False) for ns in ((3000,) if tier == "quick" else (3000, 1811))]
+
+
+def pattern_check(case):
+    """recordings holding long stretches of zeros (acquisition gaps, silent synthetic data), the int16 rails or constants: what the samples are must not matter"""
+    pat, post_check, ns = case
+    root = os.path.join(synth.proc_scratch(), "c03p")
+    np2.clean(root)
+    assign = [0, 1, 2, 3, 3, 0]
+    sites = np2.sites_for(assign)
+    data = np2.content(ns, 7, "ramp")
+    a, b = ns // 3, ns // 3 + 1400          # longer than two processing windows of 600 samples
+    if pat == "all-zero":
+        data[:] = 0
+    elif pat == "zero-start":
+        data[:1400] = 0
+    elif pat == "zero-middle":
+        data[a:b] = 0
+    elif pat == "zero-end":
+        data[ns - 1400:] = 0
+    elif pat == "rail-low":
+        data[a:b] = -32768
+    elif pat == "rail-high":
+        data[a:b] = 32767
+    elif pat == "constant":
+        data[:] = 1234
+    elif pat == "zero-data-live-sync":
+        data[a:b, :-1] = 0
+    elif pat == "live-data-zero-sync":
+        data[a:b, -1] = 0
+    ap = np2.make_session(root, "NP2.4", sites, data)
+    orig_sha = np2.sha1(ap)
+    orig_meta = spikeglx.read_meta_data(ap.with_suffix(".meta"))
+    seen = {}
+    ctx = "recording of %d samples with pattern %s (post_check=%s, window 600)" % (ns, pat, post_check)
+    try:
+        status, conv = np2.convert(ap, nwindow=600, post_check=post_check)
+        np2.release(conv)
+        if status != 1:
+            seen.setdefault("pattern:status", "%s: process() returned %r" % (ctx, status))
+        sub = {}
+        _compare_split(root, data, sites, sub, ctx)
+        _reconstruct_and_compare(root, orig_sha, orig_meta, sub, ctx)
+        for k, m in sub.items():
+            seen.setdefault("pattern:" + k, m)
+    except Exception as e:
+        seen.setdefault("pattern:exc:%s" % type(e).__name__, "%s: raised %s: %s" % (ctx, type(e).__name__, e))
+    shutil.rmtree(root, ignore_errors=True)
+    return Res(list(seen.items()), o=(pat, post_check), tr=2)
+
+
 # ------------------------------------------------------------------ compressed variants
 def cbin_cases(tier, seed):
     return [(a, c, src) for a in ([0, 1, 2, 3, 3, 0], [2, 2, 2, 2, 2, 2], [0, 3, 0, 3, 1, 1]) for c in (False, True) for src in ("bin", "cbin")]
@@ -414,6 +470,8 @@ CHECK = {
         Clause("shank-maps", "all 4^6 shank maps, split + reconstruct", cases=map_cases, check=map_check),
         Clause("windows", "window sizes x recording lengths", cases=window_cases, check=window_check),
         Clause("compressed", "compressed source / compressed shank files / compressed reconstruction", cases=cbin_cases, check=cbin_check),
+        Clause("value-patterns", "recordings with zero stretches longer than two windows (start / middle / end / everywhere), the int16 rails, constants, with and without the converter's own post-check",
+               cases=pattern_cases, check=pattern_check),
         Clause("rerun", "split followed by a forced re-split on the same / a fresh converter object", cases=rerun_cases, check=rerun_check),
         Clause("call-histories", "every sequence (4 calls quick / 5 thorough after the first split) of process(), process(overwrite=True), new converter object and init_params(): "
                "after every call the shank files are the split of the original, a forced split is carried out, and reconstruction gives the original back",
